@@ -31,6 +31,10 @@ typedef struct {
 	sqfs_u32 offset;
 	sqfs_u32 size;
 	sqfs_u32 hash;
+
+	/* SQFS_BLK_DONT_COMPRESS of the fragment: part of the key, so that such
+	   a fragment never ends up in a block that gets compressed */
+	sqfs_u32 flags;
 } chunk_info_t;
 
 enum {
